@@ -132,12 +132,14 @@ ADDENDA = {
  'C02': ('The window pcm_returned <= pcm_current is decided as an invariant of every decode-side writer by a relational '
          'pair-invariant analysis (affine upper bounds in the two fields, half-rate shift made concrete), whatever the form of '
          'the clamps; helper functions an unpacker was split into are analysed as part of it; initialisers clean up only an '
-         'object they have wiped (R02.6).',
+         'object they have wiped (R02.6); a table with one slot per used codebook entry is indexed by the used-entry counter '
+         '(R02.7).',
          ' + relational pair-invariant analysis (affine bounds) for the returned/current window'),
  'C03': ('Search loops that run until a sentinel changes have no iteration that leaves the state unchanged (R03.2: K4 '
          'refinement of the exit conditions in the stuck state), and every libvorbis function vorbisfile hands a vorbis_info to '
          'tolerates a cleared one (R03.5: K4 with codec_setup == NULL on entry); a NULL a library function can return is tested '
-         'before it is dereferenced (R03.6).',
+         'before it is dereferenced (R03.6); the link index changes only while the decoder is cleared (R03.7, K5 typestate); a '
+         'packet is read only after a positive packetout/packetpeek filled it (R03.8, K4 forked on the result class).',
          ' + stuck-state analysis of sentinel loops + null-entry analysis of the info accessors'),
  'C05': ('The managed-bitrate path hands out one of the PACKETBLOBS encodings (R05.6), residue entry numbers are mixed-radix '
          'numbers with digits below the radix (R05.7), and submap bundles pair each slot with one channel identically in '
@@ -155,7 +157,7 @@ ADDENDA = {
  'C09': ('Block-overlap sums skip the first packet at every site (R09.6) and the downward search over the links ends on a link '
          'wherever its variable subscripts a per-link table (R09.7: K4, with the lemma that the remaining total is 0 at link 0).'
          ' A link\'s serial number and data offset in the per-link tables derive from reads of the stream state whose last '
-         'writer is that link\'s header fetch (R09.8).',
+         'writer is that link\'s header fetch (R09.8), and so does the lower bound handed to the next bisection level (R09.9).',
          ' + K4 range obligations on link searches + provenance/last-writer analysis'),
  'C10': ('_fetch_headers performs the stream set-up of the link in every call that reports success, whatever state the handle '
          'was entered in (R10.4); serial numbers in the link table see their link\'s header fetch (R10.5); a fetched page is '
@@ -168,22 +170,30 @@ ADDENDA = {
          'input is dropped only with the offset re-defined (R12.7).', ' + gate-reset path rule over helpers and their callers'),
  'C13': ('Counts cover the elements filled (R13.8), arrays of owners are released element-wise (R13.9), live elements are not '
          're-initialised (R13.10); the info a live decoder refers to is not cleared under it (R13.11, typestate); a file-local '
-         'helper may leave a freed pointer to callers that wipe the container.', ''),
+         'helper may leave a freed pointer to callers that wipe the container; the set-up step that freezes the staged '
+         'settings tests the freeze flag before it allocates (R13.12).', ''),
  'C15': ('Fixed-extent indexing in the psychoacoustic and vorbisenc set-up code is proven by K4 with floating intervals '
          '(R15.5); every value vorbis_encode_ctl copies from the caller into a range-constrained set-up field is inside its '
          'range at the store or clamped before the return (R15.6, NaN cases listed as assumptions); a refused control request '
-         'has stored nothing (R15.7).', ' + K4 interval analysis (integer and floating) of set-up code'),
+         'has stored nothing (R15.7); requests on an existing set-up tolerate a cleared info (R15.8); a NaN does not survive a '
+         'request whose value becomes an integer bound (R15.6 nan-rejected); no alloca on the analysis path is sized by the '
+         'amount of audio submitted (R15.9).', ' + K4 interval analysis (integer and floating) of set-up code'),
  'C16': ('Comment strings are allocated length+1 and filled exactly (R16.2); vorbis_comment_add grows both arrays alike and '
          'keeps the terminator inside the allocation (R16.5).', ''),
- 'C17': ('The channel count used for interleaving is the decoded link\'s and is not stale across the packet fetch (R17.5, R17.6).', ''),
- 'C18': ('Decode scratch from the block arena is zeroed for every channel whatever the arena held (R18.6).', ''),
+ 'C17': ('The channel count used for interleaving is the decoded link\'s and is not stale across the packet fetch (R17.5, R17.6); '
+         'the data return is at least one frame (R17.7) and every float-to-int conversion argument is within the range of int, i.e. '
+         'samples are clipped before they are converted (R17.8, K4 floating intervals through the clip helper).', ''),
+ 'C18': ('Decode scratch from the block arena is zeroed for every channel whatever the arena held (R18.6); a memset that follows an '
+         'allocation of the same lvalue covers the allocated size (R18.7).', ''),
  'C19': ('The packet fetch reports end-of-file to the lap helpers only at a link boundary (R19.5) and vorbis_synthesis_lapout '
          'can be called again on the state it left: every window move is guarded by a test the function falsifies (R19.6); '
-         'its relocations end at the block centre and the window fields move with the data (R19.7, linear identities).',
+         'its relocations end at the block centre and the window fields move with the data (R19.7, linear identities); rows of a '
+         'decoder view are read from their first sample, never at an offset (R19.8).',
          ' + K4/K2 idempotence rule for lapout + linear identities over block-size locals'),
  'C20': ('Units of measure are checked in the block layer as well (R20.6: stream vs output samples meet only through the '
          'half-rate shift, the flag is never added to a sample count); the half-rate request is carried over when the info '
-         'is discarded and rebuilt at a streaming link boundary (R20.8).', ' + units-of-measure tag analysis in lib/block.c + K2 must-restore rule'),
+         'is discarded and rebuilt at a streaming link boundary (R20.8); ov_halfrate reports success only behind the completed '
+         'all-links loop, which its own roll-back recursion relies on (R20.9).', ' + units-of-measure tag analysis in lib/block.c + K2 must-restore rule'),
 }
 
 NA = {
